@@ -45,11 +45,13 @@ class Case:
 def _locate_gap(text: str, rd: cst.Reading, start: int, end: int) -> dict:
     """Describe a gap [start,end) of the text by its CST neighbourhood."""
     prev = None
+    prev2 = None
     nxt = None
     for lf in rd.leaves:
         if lf.type == "comment":
             continue
         if lf.end <= start:
+            prev2 = prev
             prev = lf
         elif lf.start >= end and nxt is None:
             nxt = lf
@@ -68,7 +70,7 @@ def _locate_gap(text: str, rd: cst.Reading, start: int, end: int) -> dict:
                 break
             n = n.parent
     return {"prev": prev.type if prev is not None else "", "next": nxt.type if nxt is not None else "",
-            "lca": lca}
+            "lca": lca, "prev2": prev2.type if prev2 is not None else ""}
 
 
 class RandomProgram:
